@@ -83,7 +83,7 @@ theorem explicit_spec (arrs : List (Arr α)) :
       (∃ m, m ∈ adaptVals arrs ∧ (∀ x ∈ adaptVals arrs, m ≤ x) ∧
         explicitDtAdapt arrs = if 0 < m then Res.val m else Res.none)) := by
   constructor
-  · intro h; simp [explicitDtAdapt, h]
+  · intro h; simp [explicitDtAdapt, explicitDtAdaptWith, hasDtAdapt, h]
   · intro h
     obtain ⟨e', hf, he'⟩ := explicit_fold arrs [] none (by simp [adaptVals, critVals, IsExtMin])
     simp only [List.nil_append] at he'
@@ -91,19 +91,19 @@ theorem explicit_spec (arrs : List (Arr α)) :
     | none =>
       left
       refine ⟨he', ?_⟩
-      simp only [explicitDtAdapt, h, if_true]
+      simp only [explicitDtAdapt, explicitDtAdaptWith, hasDtAdapt, h, if_true]
       rw [hf]
     | some m =>
       right
       refine ⟨m, he'.1, he'.2, ?_⟩
-      simp only [explicitDtAdapt, h, if_true]
+      simp only [explicitDtAdapt, explicitDtAdaptWith, hasDtAdapt, h, if_true]
       rw [hf]
 
 /-- The explicit value, when there is one, is what `compute_time_step` returns. -/
 theorem explicit_override (sqrt : α → α) (arrs : List (Arr α)) (cfl d : α)
     (fixedH : Option (Ext α)) (h : explicitDtAdapt arrs = Res.val d) :
     computeTimeStep sqrt arrs cfl fixedH = Res.val d := by
-  simp [computeTimeStep, h]
+  simp [computeTimeStep, computeTimeStepFrom, h]
 
 /-! ## the three-criterion formula -/
 
@@ -154,7 +154,7 @@ theorem formula (sqrt : α → α) (arrs : List (Arr α)) (cfl h : α)
         (if 0 < (factors arrs).2.2 then some (h / (factors arrs).2.2) else none)) with
       | none => Res.none
       | some m => if m ≤ 0 then Res.none else Res.val (cfl * m) := by
-    simp only [computeTimeStep, hexp, hh]
+    simp only [computeTimeStep, computeTimeStepFrom, hexp, hh]
     rfl
   rw [hct]
   generalize (extMin (extMin (if 0 < (factors arrs).1 then some (h / (factors arrs).1) else none)
@@ -196,7 +196,7 @@ theorem never_exceeds_any_particle (sqrt : α → α)
   have hmin := hmin_is_smallest_h arrs hwf
   cases hh : hMinimum arrs with
   | none =>
-    simp only [computeTimeStep, hexp, hh] at hres
+    simp only [computeTimeStep, computeTimeStepFrom, hexp, hh] at hres
     cases hres
   | some h =>
     rw [hh] at hmin
@@ -267,13 +267,25 @@ theorem explicit_never_exceeds (sqrt : α → α) (arrs : List (Arr α)) (cfl d 
 theorem fallback_when_none (sqrt : α → α) (arrs : List (Arr α)) (cfl und : α)
     (fixedH : Option (Ext α)) (h : computeTimeStep sqrt arrs cfl fixedH = Res.none) :
     solverTimestep sqrt arrs cfl und fixedH = Res.val und := by
-  simp [solverTimestep, h]
+  simp [solverTimestep, solverTimestepOf, h]
 
 /-- and otherwise exactly what the integrator proposed. -/
 theorem solver_uses_integrator_value (sqrt : α → α) (arrs : List (Arr α)) (cfl und d : α)
     (fixedH : Option (Ext α)) (h : computeTimeStep sqrt arrs cfl fixedH = Res.val d) :
     solverTimestep sqrt arrs cfl und fixedH = Res.val d := by
-  simp [solverTimestep, h]
+  simp [solverTimestep, solverTimestepOf, h]
+
+/-! ## later calls: the cached `_has_dt_adapt` flag -/
+
+/-- As long as the set of arrays carrying `dt_adapt` is what it was when the
+flag was cached (particles may come and go, the property does not), a later
+call returns exactly what a first call on the current arrays would: the cache
+never makes the step depend on the history of the particle data. -/
+theorem cached_flag_harmless (sqrt : α → α) (arrs0 arrs : List (Arr α)) (cfl : α)
+    (fixedH : Option (Ext α)) (h : hasDtAdapt arrs = hasDtAdapt arrs0) :
+    computeTimeStepCached (hasDtAdapt arrs0) sqrt arrs cfl fixedH =
+      computeTimeStep sqrt arrs cfl fixedH := by
+  simp [computeTimeStepCached, computeTimeStep, explicitDtAdapt, h]
 
 /-! ## non-vacuity: concrete states meeting the hypotheses (over ℚ) -/
 
